@@ -394,11 +394,13 @@ func TestGen(t *testing.T) {
 
 	g.order()
 	g.witnesses()
-	for i := 0; i < vlib.Scale(600, 20000); i++ {
+	for i := 0; i < vlib.Scale(600, 8000); i++ {
 		g.session(root.Sub(), i%2 == 0, nil, 0, nil)
 	}
 	g.next = 1000000
 	runE2E(t, g, root.Sub())
+	g.next = 2000000
+	runRace(t, g)
 
 	if err := c.Flush(); err != nil {
 		t.Fatal(err)
